@@ -126,6 +126,9 @@ def run_random_pairs(shard, ctx):
 
 def gen_assembly(rng):
     names = [f"ctg{k}" for k in range(rng.randint(1, 4))]
+    if rng.random() < 0.3:
+        # distinct names that a numeric-aware comparison may take for equal
+        names += rng.choice([["ctg_7", "ctg_07"], ["chr1", "chrI"], ["c2", "c02", "c002"], ["s1.1", "s1.01"]])
     scs = []
     for si in range(rng.randint(1, 5)):
         rows = []
